@@ -33,7 +33,7 @@ def BOUNDS(tier):
 def configs(tier, seed):
     q = tier == 'quick'
     cfgs = []
-    for b in ('dict', 'disk', 'redis', 'cloud'):
+    for b in ('dict', 'shelf', 'disk', 'redis', 'cloud'):
         cfgs.append(dict(backend=b, backoff='r0x2', n=2, messages=1, d=1, dd=3 if q else 4, menu=MENU))
         cfgs.append(dict(backend=b, backoff='r10-20', n=2, messages=1, d=1 if q else 2, dd=3 if q else 4, menu=MENU))
         cfgs.append(dict(backend=b, backoff='r0x2', n=3, messages=1, d=0 if q else 1, dd=3, menu=MENU))
